@@ -28,6 +28,7 @@ CATALOGUE = [
     ('mutant', 'prysm/polynomials/__init__.py', "    return np.tensordot(modes, databar)", "    return np.tensordot(modes, databar, axes=1)", 'C06.sum', 'modal companion contracts one axis'),
     ('mutant', D, "            protograd = warp(protograd, self.invprojx, self.invprojy)", "            protograd = warp(protograd, self.projx, self.projy)", 'C06.dm', 'DM companion warps forward'),
     ('mutant', D, "        in_actuator_space = apply_transfer_functions(protograd, None, np.conj(self.tf), shift=False)", "        in_actuator_space = apply_transfer_functions(protograd, None, self.tf, shift=False)", 'C06.dm', 'DM companion without conj(tf)'),
+    ('mutant', D, "            protograd = pad2d(protograd, out_shape=self.Nintermediate)", "            grown = np.zeros(self.Nintermediate, dtype=protograd.dtype)\n            lo = [(o - i)//2 for o, i in zip(self.Nintermediate, protograd.shape)]\n            grown[lo[0]:lo[0]+protograd.shape[0], lo[1]:lo[1]+protograd.shape[1]] = protograd\n            protograd = grown", 'C06.dm', 'companion pads symmetrically where the forward crops about n//2'),
     ('mutant', D, "        elif warped.shape[0] > self.Nout[0]:", "        elif warped.shape[0] > self.Nout[1]:", 'C06.dm', 'mixed-axis guard (pinned defect)'),
     ('variant', F, "        Eout_conj_t = Eout.T.conj()\n        Ein_conj_t = Ein.T.conj()\n        out = Eout_conj_t @ (fbar @ Ein_conj_t)\n        return out\n\n    def idft2(", "        out = Eout.conj().T @ fbar @ np.conj(Ein.T)\n        return out\n\n    def idft2(", '', 'conj/transposes reordered'),
     ('variant', A, "        fx = self.forward(xbar) - self.y0 # have to subtract offset\n        return self.a*(1 - fx**2)", "        e = np.exp(-2 * self.a * (xbar - self.x0))\n        return 4 * self.a * e / (1 + e)**2", '', 'tanh derivative in closed form'),
